@@ -207,7 +207,9 @@ class DynApply(Contract):
                 ('records_one', {'C19'}, cx.len(PAST) == lp + 1),
                 # the modulation recorded for this step is the one the kick was computed with
                 ('records_used', {'C19'}, And(cx.sel(PAST, lp, '0') == cx.old.sel(NEXT, h, '0'), cx.sel(PAST, lp, '1') == cx.old.sel(NEXT, h, '1'))),
-                ('kick_uses_front', {'C19', 'C12'}, Implies(And(cx.g('x') >= 0, cx.g('x') < cx.f(PS_NX)),
+                # C15: on return _offset still holds THIS step's kick -- main moves the tracked particles with rfm->applyToAll() after
+                # rfm->apply(), and KickMap::applyTo reads _offset
+                ('kick_uses_front', {'C19', 'C12', 'C15'}, Implies(And(cx.g('x') >= 0, cx.g('x') < cx.f(PS_NX)),
                                                      cx.sel('this._offset', cx.g('x')) == rf_offset_spec(cx, cx.g('x'), cx.old.sel(NEXT, h, '0'), cx.old.sel(NEXT, h, '1')))),
                 ('earlier_records_kept', {'C19'}, Implies(And(cx.g('k') >= 0, cx.g('k') < lp), And(cx.sel(PAST, cx.g('k'), '0') == cx.old.sel(PAST, cx.g('k'), '0'),
                                                                                                   cx.sel(PAST, cx.g('k'), '1') == cx.old.sel(PAST, cx.g('k'), '1'))))]
